@@ -8,6 +8,8 @@ func dispatch(t *testing.T, sc scenario) result {
 		return runDivider(sc)
 	case 3:
 		return runUtils(sc)
+	case 5:
+		return runJoin(t, sc)
 	default:
 		return result{verdict: "unknown-family"}
 	}
